@@ -767,9 +767,9 @@ def oracle_nest(scen, oacc, o_is_class, iacc, i_is_class, clevel, invs, obs):
     return None
 
 
-NEST_OUTERS = [("def", 0), ("def", 1), ("def", 2), ("def", 3), ("def", 4), ("lambda", 1), ("lambda", 3), ("bound", 2),
+NEST_OUTERS = [("varargs", 0), ("def", 0), ("def", 1), ("def", 2), ("def", 3), ("def", 4), ("lambda", 1), ("lambda", 3), ("bound", 2),
                ("static-cls", 1), ("classmethod", 3), ("partial", 1), ("partial-kw", 2), ("callobj", 3), ("class", 1),
-               ("varargs", 0), ("varargs", 2), ("defaults", 1), ("kwonly", 2), ("kwreq", 1)]
+               ("varargs", 2), ("defaults", 1), ("kwonly", 2), ("kwreq", 1)]
 NEST_INNERS_REJECT = [("py", "def", 4), ("py", "kwreq", 1), ("py", "kwreq", 3), ("py", "lambda", 4), ("py", "bound", 4),
                       ("py", "class", 4), ("c", "ord")]
 NEST_INNERS_OTHER = [("py", kind, k) for kind in ("def", "lambda", "bound", "partial", "callobj", "class", "varargs",
@@ -827,6 +827,7 @@ def _nest_case_of(j):
 def check_nest(ctx, pp, cfg, cases, stream="nest", correspond=True):
     lines, impl, js, scens = [], [], [], []
     n_fail = 0
+    seen_scen = set()
     for c in cases:
         scen, okind, ok, ispec, invs = c
         obs, oacc, o_is_class, iacc, i_is_class, clevel = run_nest_real(pp, scen, okind, ok, ispec, invs)
@@ -835,8 +836,9 @@ def check_nest(ctx, pp, cfg, cases, stream="nest", correspond=True):
         js.append(_nest_case_json(c))
         scens.append(scen)
         bad = oracle_nest(scen, oacc, o_is_class, iacc, i_is_class, clevel, invs, obs)
-        if bad and n_fail < 3:
+        if bad and n_fail < 3 and scen not in seen_scen:
             n_fail += 1
+            seen_scen.add(scen)
             ctx.fail_input("exception raised below a parse action's frame (nested parse action) not propagated unchanged",
                            _nest_case_json(c), bad[0], sx(obs), theorem="PP.TrimArity." + bad[1],
                            how="harness/props/c13.py run_nest_real(scenario, outer kind, outer arity, inner, invs)")
@@ -1477,12 +1479,13 @@ def oracle_gate(t, s, da, log):
     return None
 
 
-def check_gate(ctx, pp, stream="gate", cases=None):
+def check_gate(ctx, pp, stream="gate", cases=None, max_fail=3):
     cases = gen_gate_cases(ctx) if cases is None else cases
     lines = [sx(Sym("gate"), tree_sexp(t), s, da) for t, s, da in cases]
     mouts = ctx.driver.run_sharded(lines)
     keep_c, keep_l, keep_m, impl, js = [], [], [], [], []
     n_fail = 0
+    seen_da = set()
     skipped = 0
     for (t, s, da), ln, mo in zip(cases, lines, mouts):
         if mo.startswith("(hang") or mo in ("bad-op", "bad-line"):
@@ -1503,8 +1506,9 @@ def check_gate(ctx, pp, stream="gate", cases=None):
             bad = oracle_gate(t, s, True, log2)
             if bad:
                 io = io2
-        if bad and n_fail < 3:
+        if bad and n_fail < max_fail and (max_fail >= 3 or da not in seen_da):
             n_fail += 1
+            seen_da.add(da)  # one trial-entry witness, one through a real parse (Or / Each / SkipTo / stop_on inside)
             ctx.fail_input("action fired during trial matching", {"tree": t, "s": s, "da": da}, bad[0], io,
                            theorem=bad[1], how="harness/props/c13.py run_gate_real(tree, s, da)")
     ctx.notes[stream + "_skipped_model_hang"] = skipped
@@ -1590,7 +1594,7 @@ def check_ops(ctx, pp, n, tag="gate-ops"):
         impl.append(sx([[real, flag] for real, flag, _ in obs]))
         js.append({"base": base, "ops": ops})
         bad = oracle_ops(ops, obs)
-        if bad and n_fail < 3:
+        if bad and n_fail < 1:
             n_fail += 1
             ctx.fail_input("action configuration after a history of set_/add_ operations", {"base": base, "ops": ops},
                            bad[0], sx([[r, f, t] for r, f, t in obs]), theorem=bad[1],
@@ -1699,6 +1703,30 @@ def replay_witnesses(ctx, pp, cfg):
         return
     for p in sorted(CORPUS.glob("*.json")):
         w = json.loads(p.read_text())
+        if w.get("stream") == "nest":
+            c = _nest_case_of(w)
+            obs, oacc, o_is_class, iacc, i_is_class, clevel = run_nest_real(pp, *c)
+            bad = oracle_nest(c[0], oacc, o_is_class, iacc, i_is_class, clevel, c[4], obs)
+            ctx.count_cases("corpus", 1, distinct_keys=[p.name], samples=[{"witness": p.name, "impl": sx(obs)}])
+            if bad:
+                ctx.fail_input("nested parse action: exception not propagated unchanged (corpus witness)",
+                               {**_nest_case_json(c), "file": p.name}, bad[0], sx(obs), theorem="PP.TrimArity." + bad[1])
+            line = nest_model_line(cfg, c[0], c[1], oacc, o_is_class, c[3], iacc, i_is_class, clevel, c[4])
+            ctx.correspond("corpus-nest", [_nest_case_json(c)], [line], [sx(obs)],
+                           model_outputs=[project_nest(ctx.driver.run([line])[0], c[0], c[3][0] == "c")])
+            continue
+        if w.get("stream") == "ops":
+            obs = run_ops_real(pp, w["base"], w["ops"])
+            bad = oracle_ops(w["ops"], obs)
+            ctx.count_cases("corpus", 1, distinct_keys=[p.name], samples=[{"witness": p.name}])
+            if bad:
+                ctx.fail_input("action configuration after a history of set_/add_ operations (corpus witness)",
+                               {"base": w["base"], "ops": w["ops"], "file": p.name}, bad[0],
+                               sx([[r, f, t] for r, f, t in obs]), theorem=bad[1])
+            ctx.correspond("corpus-ops", [{"base": w["base"], "ops": w["ops"]}],
+                           [sx(Sym("ops"), [op_sexp(op) for op in w["ops"]])],
+                           [sx([[real, flag] for real, flag, _ in obs])])
+            continue
         if w.get("stream") != "trim":
             continue
         behs = [tuple(b) for b in w["behs"]]
@@ -1751,8 +1779,10 @@ def run(ctx):
     check_builtins(ctx, pp)
     # elements configured through histories of set_parse_action / add_parse_action / add_condition / copy
     seeds["gate-ops"] = check_ops(ctx, pp, ctx.budget(800, 10000))
-    seeds["gate-hist"] = check_gate(ctx, pp, stream="gate-hist", cases=gen_gate_cases(
-        ctx, tag="gate-hist", n=ctx.budget(600, 8000), p_hist=1.0, p_focus=0.7, depths=(1, 1, 2, 2, 3)))
+    hist_cases = gen_gate_cases(ctx, tag="gate-hist", n=ctx.budget(600, 8000), p_hist=1.0, p_focus=0.7,
+                                depths=(1, 1, 2, 2, 3))
+    hist_cases.sort(key=lambda c: len(sx(tree_sexp(c[0]))))  # small grammars first: the first failing input is readable
+    seeds["gate-hist"] = check_gate(ctx, pp, stream="gate-hist", cases=hist_cases, max_fail=2)
     seeds["gate"] = check_gate(ctx, pp)
     candidate_findings(ctx, pp)
     if ctx.broken and not ctx.fail_inputs:
